@@ -58,9 +58,9 @@ def _same_root(a, b):
 def r1_request_wiring(ctx):
     R = ctx.rule("C01.R1", "http_request_handle calls lookup_route(server.router, request.method(), request.uri().path(), request_version(&request)?) on the one request, and both "
                  "handle_request calls take lookup_result.handler, a RequestContext whose endpoint is lookup_result.endpoint, and that same request", floor=13)
-    top = ctx.need_fn(ctx.ds, R, r"^server::http_request_handle$")
-    hb = ctx.ds.body_of(top)
-    looks = callers(ctx.ds, r"HttpRouter::<Context>::lookup_route$")
+    top = ctx.need_fn(ctx.dsn, R, r"^server::http_request_handle$")
+    hb = ctx.dsn.body_of(top)
+    looks = callers(ctx.dsn, r"HttpRouter::<Context>::lookup_route$")
     ctx.check(R, "single-lookup-site", len(looks) == 1 and looks[0][0] is hb, "lookup_route is called from %s" % sorted(f.id for f, _, _ in looks), hb)
     look = hb.live_calls(r"HttpRouter::<Context>::lookup_route$")
     if len(look) != 1:
@@ -104,11 +104,11 @@ def r1_request_wiring(ctx):
         return
     # handlers
     sites = []
-    for g in [hb] + ctx.ds.descendants(hb):
+    for g in [hb] + ctx.dsn.descendants(hb):
         for bb, t in g.live_calls(r"RouteHandler::handle_request$"):
             sites.append((g, bb, t))
     ctx.check(R, "two-handler-sites", len(sites) == 2, "handle_request call sites under http_request_handle: %d (one per task mode)" % len(sites), hb)
-    fields = [f["name"] for f in (ctx.ds.adt_fields("handler::RequestContext") or [])]
+    fields = [f["name"] for f in (ctx.dsn.adt_fields("handler::RequestContext") or [])]
     if "endpoint" not in fields:
         ctx.lost(R, "field RequestContext.endpoint")
         return
@@ -116,11 +116,11 @@ def r1_request_wiring(ctx):
     for g, bb, t in sites:
         tag = "spawned" if g is not hb else "inline"
         # receiver
-        f1, ph = resolve_path(ctx.ds, g, t["args"][0], VP + TRYQ, stop_at=hb)
+        f1, ph = resolve_path(ctx.dsn, g, t["args"][0], VP + TRYQ, stop_at=hb)
         okh = f1 is hb and ph.is_call(r"HttpRouter::<Context>::lookup_route$") and ph.npath() == ["+", "0", "handler"] and ph.call()[1] == lbb
         ctx.check(R, "handler-is-lookup_result.handler:%s" % tag, okh, "handle_request receiver is %r" % ph, (g, bb))
         # context
-        f2, pc = resolve_path(ctx.ds, g, t["args"][1], VP, stop_at=hb)
+        f2, pc = resolve_path(ctx.dsn, g, t["args"][1], VP, stop_at=hb)
         oke = False
         pe = None
         if f2 is hb and pc.kind() == "agg" and pc.root[2].get("adt") == "handler::RequestContext" and not pc.path:
@@ -128,10 +128,10 @@ def r1_request_wiring(ctx):
             oke = pe.is_call(r"HttpRouter::<Context>::lookup_route$") and pe.npath() == ["+", "0", "endpoint"] and pe.call()[1] == lbb
         ctx.check(R, "context-endpoint-is-lookup_result.endpoint:%s" % tag, oke, "RequestContext.endpoint is %r (context value: %r)" % (pe, pc), (g, bb))
         # request
-        f3, prq = resolve_path(ctx.ds, g, t["args"][2], VP, stop_at=hb)
+        f3, prq = resolve_path(ctx.dsn, g, t["args"][2], VP, stop_at=hb)
         ctx.check(R, "handler-gets-the-routed-request:%s" % tag, f3 is hb and _same_root(prq, req) and prq.path == req.path,
                   "handle_request's request is %r; routed request is %r" % (prq, req), (g, bb))
-    n_ctx = sum(1 for f in ctx.ds.F.values() for _ in f.aggregates(r"^handler::RequestContext$"))
+    n_ctx = sum(1 for f in ctx.dsn.F.values() for _ in f.aggregates(r"^handler::RequestContext$"))
     ctx.check(R, "one-RequestContext-construction", n_ctx == 1, "aggregate sites of RequestContext in the crate: %d" % n_ctx, hb)
 
 
